@@ -51,6 +51,8 @@ def make_inputs(tier, seed):
     quick = tier == "quick"
     for sp in G.sep_error_specials():
         yield {"spec": sp}
+    for sp in G.falsy_specials():
+        yield {"spec": sp}
     for i, c in enumerate(G.ctx_field_product()):
         if quick and (i + seed) % 6:
             continue
